@@ -59,21 +59,33 @@ def run_schedule(sched, var):
 
 
 def gen(rng, n):
+    """start/stop of the subscriber, subscribe / unsubscribe of (eventgroup, server) keys.  Most requests go to a few
+    'hot' keys so that the same key is dropped and requested again, and many requests share one loop position (the
+    same iteration of the event loop): that is where the order of the deferred sends matters."""
     from .anngen import positions
     alive, req, sched = False, set(), []
+    hot_srv = rng.choice(SRVS)
+    hot = [(g, hot_srv) for g in rng.sample(list(EGS), 2)] + [(rng.choice(list(EGS)), rng.choice(SRVS))]
+
+    def toggle(t, j, k):
+        if k in req:
+            req.discard(k)
+            sched.append({"t": t, "j": j, "op": "unsubscribe", "g": k[0], "srv": k[1]})
+        else:
+            req.add(k)
+            sched.append({"t": t, "j": j, "op": "subscribe", "g": k[0], "srv": k[1]})
     for (t, j) in positions(rng, n, gaps=(0, 0, 0, 0, 0, 0, 1, 1, 2, 3)):
         r = rng.random()
-        if r < 0.22:
+        if r < 0.18:
             sched.append({"t": t, "j": j, "op": "sub_stop" if alive else "sub_start"})
             alive = not alive
+        elif r < 0.45:        # a burst in one iteration: some request, then the same key flipped twice (or three times)
+            toggle(t, j, rng.choice(hot))
+            k = rng.choice(hot)
+            for _ in range(rng.choice([2, 2, 3])):
+                toggle(t, j, k)
         else:
-            k = (rng.choice(list(EGS)), rng.choice(SRVS))
-            if k in req and rng.random() < 0.7 or (k in req):
-                req.discard(k)
-                sched.append({"t": t, "j": j, "op": "unsubscribe", "g": k[0], "srv": k[1]})
-            else:
-                req.add(k)
-                sched.append({"t": t, "j": j, "op": "subscribe", "g": k[0], "srv": k[1]})
+            toggle(t, j, rng.choice(hot) if rng.random() < 0.75 else (rng.choice(list(EGS)), rng.choice(SRVS)))
     return sched
 
 
